@@ -820,17 +820,23 @@ func (r *Runner) Invariant(universeKeys []string) []Disc {
 				cond = s3x.H("If-None-Match", `"00000000000000000000000000000000"`)
 				what += " (If-None-Match of other bytes)"
 			}
-			resp := r.do(r.req("GET", b, k, nil, cond, nil))
+			// and every fifth one is a HEAD: it sees the key exactly as a GET does
+			method := "GET"
+			if r.invN%5 == 4 {
+				method = "HEAD"
+				what = "invariant HEAD" + what[len("invariant GET"):]
+			}
+			resp := r.do(r.req(method, b, k, nil, cond, nil))
 			v := mb.Live(k)
 			if v == nil {
-				ds = append(ds, expectErr(resp, "GET", 404, "NoSuchKey", what+" (not live)")...)
+				ds = append(ds, expectErr(resp, method, 404, "NoSuchKey", what+" (not live)")...)
 				continue
 			}
 			if d := expectStatus(resp, 200, what); d != nil {
 				ds = append(ds, d...)
 				continue
 			}
-			ds = append(ds, checkObject(resp, "GET", v, what)...)
+			ds = append(ds, checkObject(resp, method, v, what)...)
 			ds = append(ds, r.foreignMeta(resp, b, k, what)...)
 		}
 	}
